@@ -42,6 +42,12 @@ def gen_cases(chk):
         for k in sets:
             p = B.mov(1, 5) + B.mov(2, 0) + B.mov(3, 0) + B.mov(4, 0) + B.mov(5, 0) + call_insn(k if k < 2 ** 31 else k - 2 ** 32) + B.EXIT
             cases.append(Case(p, helpers=table, fam='many-helpers'))
+    # an id registered more than once: the call reaches the function registered last (registrations are made in list order)
+    for k in (1, 0x7fffffff, 0x80000000, 0xffffffff):
+        for table in ([(k, 'mix'), (k, 'clobber')], [(k, 'clobber'), (k, 'mix')], [(k, 'mix'), (2, 'clobber'), (k, 'clobber'), (k, 'mix')],
+                      [(k, 'clobber'), (k, 'clobber'), (3, 'mix'), (k, 'mix'), (k, 'clobber')]):
+            p = B.mov(1, 5) + B.mov(2, 0) + B.mov(3, 0) + B.mov(4, 0) + B.mov(5, 0) + call_insn(k if k < 2 ** 31 else k - 2 ** 32) + B.EXIT
+            cases.append(Case(p, helpers=table, fam='re-registered'))
     # unknown ids: error when reached (interpreter); compile error (compilers)
     for hid in ids:
         cases.append(Case(B.mov(0, 7) + call_insn(hid) + B.EXIT, helpers=[((hid + 1) & 0xffffffff, 'mix')], fam='unknown'))
